@@ -5,6 +5,24 @@ V = os.path.dirname(os.path.dirname(os.path.abspath(__file__)))
 ALL = ["C%02d" % i for i in range(1, 21)]
 TECH = "TLA+ spec checked by TLC (bounded exhaustive) + replay of the dumped TLC state graph into the real code + TLC trace validation"
 CLAIMS = {
+ "C01": dict(engine="core", design="4, 3.6",
+   text='Core.tla models the context/module machine as coded (start/stop/deregister/evaluation-pass/loop start/stop/flush as continuation frames, callbacks as explicit frames so that every public call can be made re-entrantly from inside every callback kind); TLC checks the C01 monitors (running count, handlers only for RUNNING modules, legal states) exhaustively on bounded configs; the dumped graph is replayed into the real library: all paths up to depth D, an edge cover and random walks, each completed to a clean state, comparing after every call and at every callback entry: module states, registered count, running_modules, which callback (module, kind) the library enters and in which order, return codes, allocator and descriptor ledgers.',
+   note='Bounded: 2-3 modules, <=2 payloads in flight, mailbox capacity 2-3, callback nesting <=2; one context per thread. Poll batches are chosen by the program through a wrapped epoll_wait (the really-ready set is compared). Trusted: TLC, dot parser, driver projection, a few white-box reads (running_modules, quit flag, mailbox descriptor, poll-source owner).'),
+ "C02": dict(engine="core", design="4, 3.6",
+   text='Same Core.tla, pub/sub configurations (tell/publish/broadcast/poison pill, literal + regex subscriptions, auto-free payloads, recipients paused/stopped/deregistered with messages in flight, mailbox overflow, quit + final flush): TLC checks copy accounting and the auto-free-exactly-once monitor; replay compares mailbox lengths, the exact events handed to each handler invocation (payload identity, sender, topic, system flag), and when the library releases each payload (allocator ledger).',
+   note='Bounded: 2-3 modules, <=2 payloads in flight, mailbox capacity 2-3, callback nesting <=2; one context per thread. Poll batches are chosen by the program through a wrapped epoll_wait (the really-ready set is compared). Trusted: TLC, dot parser, driver projection, a few white-box reads (running_modules, quit flag, mailbox descriptor, poll-source owner).'),
+ "C07": dict(engine="core", design="4, 3.6",
+   text="Same Core.tla, context configurations (persistent / non-persistent; register, deregister, finalize, dispatch-driven loop and quit from the top level and from callbacks): TLC checks 'no registered module without a context' and the running count; replay compares context state, registered count, stop-callback order during teardown, zombie states of retained references, and that nothing is left in allocator/descriptor ledgers once the context is released and references dropped.",
+   note='Bounded: 2-3 modules, <=2 payloads in flight, mailbox capacity 2-3, callback nesting <=2; one context per thread. Poll batches are chosen by the program through a wrapped epoll_wait (the really-ready set is compared). Trusted: TLC, dot parser, driver projection, a few white-box reads (running_modules, quit flag, mailbox descriptor, poll-source owner).'),
+ "C08": dict(engine="core", design="4, 3.6",
+   text="Same Core.tla: each mailbox is a FIFO, one message is read per poll event, the final flush drains in order and a poison pill splits the mailbox; configurations with two payloads in flight to one recipient, pills before/after tells, pause/resume, quit + flush; replay compares the sequence of events of every handler invocation with the spec's.",
+   note='Bounded: 2-3 modules, <=2 payloads in flight, mailbox capacity 2-3, callback nesting <=2; one context per thread. Poll batches are chosen by the program through a wrapped epoll_wait (the really-ready set is compared). Trusted: TLC, dot parser, driver projection, a few white-box reads (running_modules, quit flag, mailbox descriptor, poll-source owner).'),
+ "C15": dict(engine="core", design="4, 3.6",
+   text='Same Core.tla with module flags: duplicate names (EEXIST), replacement (old module deregistered first), persistent modules while looping, deny-publish / deny-subscribe / deny-context (innermost executing callback) and the reserved topic prefix, with the restricted calls attempted from callbacks up to nesting depth 2; replay compares return codes and that refused calls change nothing observable.',
+   note='Bounded: 2-3 modules, <=2 payloads in flight, mailbox capacity 2-3, callback nesting <=2; one context per thread. Poll batches are chosen by the program through a wrapped epoll_wait (the really-ready set is compared). Trusted: TLC, dot parser, driver projection, a few white-box reads (running_modules, quit flag, mailbox descriptor, poll-source owner).'),
+ "C19": dict(engine="core", design="4, 3.6",
+   text="Same Core.tla: loop-started/stopped and module-started/stopped notifications are generated by the modelled transitions and travel as ordinary mailbox messages to RUNNING/PAUSED subscribers; replay compares for every handler invocation the notifications received (topic, sender, system flag, no payload) one-to-one with the spec's.",
+   note='Bounded: 2-3 modules, <=2 payloads in flight, mailbox capacity 2-3, callback nesting <=2; one context per thread. Poll batches are chosen by the program through a wrapped epoll_wait (the really-ready set is compared). Trusted: TLC, dot parser, driver projection, a few white-box reads (running_modules, quit flag, mailbox descriptor, poll-source owner).'),
  "C05": dict(engine="structs", design="4/C05, 3.4",
    text="MapAbs.tla (dictionary with nondeterministic iteration order, key-copy ledger, destructor fates) is model-checked exhaustively by TLC on bounded configs (3 keys x 3 values, all flag combinations); its dumped state graph is replayed into the real map with plain keys, keys sharing one home slot and three key sets whose chains wrap around the end of the 256-slot table (all paths up to D mutating steps with all queries at every node, edge cover, random walks), comparing return values, full contents, length, iterator position, destructor counts and the allocator ledger (private key copies) after every step.",
    note="Bounded: 3 keys/3 values in E1/E2. Iteration order is followed by observation. Trusted: TLC, dot parser, driver projection, a copy of the public hash used only to search adversarial keys."),
@@ -46,6 +64,7 @@ def main():
                 "baseline_off_cmd": "cmake --build /repo/_build && ctest --test-dir /repo/_build -j8 --timeout 900",
                 "source_commits": [], "add_only": True},
       "engines": [
+        {"name": "core", "path": "spec/Core.tla spec/CoreMC.tla spec/Core_mc_*.cfg harness/drv_core.c harness/gw.h", "serves_properties": ["C01", "C02", "C07", "C08", "C15", "C19"], "kind_free_text": "TLC bounded model checking of a functional model of the core + replay of the dumped graph (API calls from top level and from callbacks) into the real library with wrapped epoll_wait/write/pipe/close"},
         {"name": "thpool", "path": "spec/Thpool.tla spec/ThpoolMC.tla harness/vp_sched.h harness/drv_thpool.c", "serves_properties": ["C06"], "kind_free_text": "TLC (safety + liveness) + controlled-schedule replay of the dumped state graph on the real thpool.c"},
         {"name": "structs", "path": "spec/{Seqs,Bst,MapAbs,Mem,MemTrace}.tla harness/drv_{seqs,bst,map,mem}.c harness/gw.h", "serves_properties": ["C05", "C10", "C11", "C12"], "kind_free_text": "TLC bounded model checking + replay of the dumped state graph into the real code + TLC trace validation"},
       ],
